@@ -942,6 +942,14 @@ func ruleNG1(pkgs ...string) Rule {
 					if f.Root().Short == "init" {
 						continue
 					}
+					// a table built lazily, once: the literal handed to (*sync.Once).Do is an init in disguise
+					if f.Lit != nil {
+						if call, ok := c.P.Parent(f.Lit).(*ast.CallExpr); ok {
+							if len(call.Args) == 1 && call.Args[0] == ast.Expr(f.Lit) && strings.HasPrefix(calleeName(f.Info(), call), "sync.(*Once).Do") {
+								continue
+							}
+						}
+					}
 					info := f.Info()
 					rootOf := func(e ast.Expr) types.Object {
 						for {
